@@ -376,7 +376,7 @@ func VerifyFunc(w *World, fi *FuncInfo) (res *FuncResult) {
 	}()
 	sp := fi.Spec
 	if sp == nil {
-		sp = &FuncSpec{Key: fi.Key, Loops: map[int]*LoopSpec{}, AtCall: map[string]*CallSpec{}, Wraps: map[string]bool{}}
+		sp = &FuncSpec{Key: fi.Key, Loops: map[int]*LoopSpec{}, AtCall: map[string]*CallSpec{}, Wraps: map[string]bool{}, WrapsIf: map[string]ast.Expr{}}
 	}
 	fr := x.newFrame(fi)
 	x.frames = []*Frame{fr}
@@ -428,8 +428,7 @@ func VerifyFunc(w *World, fi *FuncInfo) (res *FuncResult) {
 	defer func() { delete(entryStates, fr); delete(entryVarsMap, fr) }()
 
 	if sp.Trusted == "" {
-		out := x.runBody(fr, st)
-		if out != nil {
+		for _, out := range x.runBody(fr, st) {
 			resv := x.collectResults(fr, out)
 			pvars := map[string]Value{}
 			for k, v := range vars {
@@ -454,6 +453,7 @@ func VerifyFunc(w *World, fi *FuncInfo) (res *FuncResult) {
 		}
 	}
 	// facts and axioms travel with the obligations
+	nameSites(x.obls)
 	axioms := x.packageAxioms()
 	for _, o := range x.obls {
 		o.Facts = x.facts
